@@ -157,6 +157,11 @@ func run(r *report.Run, cc *sim.ChainCase) *report.Failure {
 			return nil
 		}
 		fork := forkNames[sb.Message.Fork]
+		if len(a.Mut) > 0 && a.MutSeed%2 == 0 {
+			if f := structOverLimit(r, l, sb, fork, slot); f != nil {
+				return f
+			}
+		}
 		applied := 0
 		for k, id := range a.Mut {
 			if applied >= 12 {
@@ -394,7 +399,7 @@ func TestCheck(t *testing.T) {
 	if r.Replay != "" {
 		return
 	}
-	r.Mandatory("too-young-exit-of-queued-validator", "family:HDR", "family:SIG", "family:RANDAO", "family:ATT", "family:ASL", "family:PSL", "family:DEP", "family:EXIT", "family:BLSCH", "family:SYNC", "family:PAY", "bytes:decodable-corruption", "bytes:differential-judged", "benign-mutation-accepted")
+	r.Mandatory("struct-over-limit", "too-young-exit-of-queued-validator", "family:HDR", "family:SIG", "family:RANDAO", "family:ATT", "family:ASL", "family:PSL", "family:DEP", "family:EXIT", "family:BLSCH", "family:SYNC", "family:PAY", "bytes:decodable-corruption", "bytes:differential-judged", "benign-mutation-accepted")
 	// ---- tour: validators that went through the activation queue, then mutations that depend on their age
 	nt := 2
 	if r.Thorough() {
